@@ -716,3 +716,447 @@ def describe_pipe(spec: Dict[str, Any]) -> str:
         elif op == "convert_records":
             parts.append(".convert_records(%s)" % (json.dumps(p, sort_keys=True),))
     return "".join(parts)
+
+
+# --------------------------------------------------------------------------------------------------
+# C13: expression TEXT generator, Python-side shape and value oracles
+# --------------------------------------------------------------------------------------------------
+
+T_ARITH = ["+", "-", "*", "/", "//", "%", "**"]
+T_CMP = ["<", "<=", ">", ">=", "==", "!="]
+T_BOOL = ["and", "or"]
+T_BIN = T_ARITH + T_CMP + T_BOOL
+LEAF_PATTERNS = [["x", 2, "y", 3, 0.5], [3, "x", 0.5, "y", 2], ["y", "x", 2, 0.5, 3]]
+XY_VALUES = [-2, -1, 1, 2, 0.5]
+
+_TREE_CACHE: Dict[int, List[Any]] = {}
+
+
+def gen_trees(n: int) -> List[Any]:
+    """all operator trees with exactly n operators over leaf placeholders "L":
+    ("bin", op, A, B) | ("neg", A) | ("not", A) | ("chain", [op1, op2], [A, B, C]) (two comparison operators)"""
+    if n in _TREE_CACHE:
+        return _TREE_CACHE[n]
+    if n == 0:
+        out: List[Any] = ["L"]
+    else:
+        out = []
+        for t in gen_trees(n - 1):
+            out.append(("neg", t))
+            out.append(("not", t))
+        for i in range(n):
+            for a in gen_trees(i):
+                for b in gen_trees(n - 1 - i):
+                    for op in T_BIN:
+                        out.append(("bin", op, a, b))
+        if n >= 2:
+            for i in range(n - 1):
+                for j in range(n - 1 - i):
+                    k = n - 2 - i - j
+                    for a in gen_trees(i):
+                        for b in gen_trees(j):
+                            for c in gen_trees(k):
+                                for o1 in T_CMP:
+                                    for o2 in T_CMP:
+                                        out.append(("chain", [o1, o2], [a, b, c]))
+    _TREE_CACHE[n] = out
+    return out
+
+
+def fill_leaves(tree, pattern: Sequence[Any]):
+    it = [0]
+
+    def rec(t):
+        if t == "L":
+            v = pattern[it[0] % len(pattern)]
+            it[0] += 1
+            return ("leaf", v)
+        if t[0] == "bin":
+            l = rec(t[2])
+            r = rec(t[3])
+            return ("bin", t[1], l, r)
+        if t[0] in ("neg", "not"):
+            return (t[0], rec(t[1]))
+        if t[0] == "chain":
+            return ("chain", list(t[1]), [rec(x) for x in t[2]])
+        raise ValueError(t)
+
+    return rec(tree)
+
+
+def full_paren_text(t, top: bool = True) -> str:
+    """every compound operand in parentheses"""
+    k = t[0]
+    if k == "leaf":
+        return t[1] if isinstance(t[1], str) else repr(t[1])
+    w = lambda x: full_paren_text(x, False) if x[0] == "leaf" else "(" + full_paren_text(x, False) + ")"  # noqa: E731
+    if k == "bin":
+        return "%s %s %s" % (w(t[2]), t[1], w(t[3]))
+    if k == "neg":
+        return "-" + w(t[1])
+    if k == "not":
+        return "not " + w(t[1])
+    if k == "chain":
+        return "%s %s %s %s %s" % (w(t[2][0]), t[1][0], w(t[2][1]), t[1][1], w(t[2][2]))
+    raise ValueError(t)
+
+
+_PYOPS = None
+
+
+def _pyops():
+    global _PYOPS
+    if _PYOPS is None:
+        import ast
+
+        _PYOPS = {
+            ast.Add: "+", ast.Sub: "-", ast.Mult: "*", ast.Div: "/", ast.FloorDiv: "//", ast.Mod: "%", ast.Pow: "**",
+            ast.Lt: "<", ast.LtE: "<=", ast.Gt: ">", ast.GtE: ">=", ast.Eq: "==", ast.NotEq: "!=",
+            ast.And: "and", ast.Or: "or",
+        }  # fmt: skip
+    return _PYOPS
+
+
+FLATTEN = ("+", "*", "and", "or")
+
+
+def _flat(op, args):
+    """left-spine flattening of an associative operator (a op b) op c == a op b op c"""
+    if op in FLATTEN and args and isinstance(args[0], tuple) and args[0][0] == op:
+        return (op,) + tuple(args[0][1:]) + tuple(args[1:])
+    return (op,) + tuple(args)
+
+
+def python_shape(text: str):
+    """Shape of the text under PYTHON's grammar (ast.parse), mapped to the DSL's documented encodings:
+    -<constant> is a constant; `not a` is `a == False`; + * and or are flattened along the left spine;
+    a comparison chain stays a chain node (the DSL has no such node)."""
+    import ast
+
+    ops = _pyops()
+
+    def rec(n):
+        if isinstance(n, ast.Constant):
+            return ("v", type(n.value).__name__, n.value)
+        if isinstance(n, ast.Name):
+            return ("c", n.id)
+        if isinstance(n, ast.UnaryOp):
+            a = rec(n.operand)
+            if isinstance(n.op, ast.USub):
+                if a[0] == "v" and a[1] in ("int", "float"):
+                    return ("v", a[1], -a[2])
+                return ("neg", a)
+            if isinstance(n.op, ast.Not):
+                return ("==", a, ("v", "bool", False))
+            raise ValueError("unary " + type(n.op).__name__)
+        if isinstance(n, ast.BinOp):
+            return _flat(ops[type(n.op)], [rec(n.left), rec(n.right)])
+        if isinstance(n, ast.BoolOp):
+            vals = [rec(v) for v in n.values]
+            out = vals[0]
+            for v in vals[1:]:
+                out = _flat(ops[type(n.op)], [out, v])
+            return out
+        if isinstance(n, ast.Compare):
+            if len(n.ops) == 1:
+                return (ops[type(n.ops[0])], rec(n.left), rec(n.comparators[0]))
+            return ("chain", tuple(ops[type(o)] for o in n.ops), tuple([rec(n.left)] + [rec(c) for c in n.comparators]))
+        raise ValueError("node " + type(n).__name__)
+
+    return rec(ast.parse(text, mode="eval").body)
+
+
+def unchain(shape):
+    """the DSL's (known, wrong) reading of comparison chains: left-nested binary comparisons"""
+    if not isinstance(shape, tuple) or not shape:
+        return shape
+    if shape[0] == "chain":
+        ops, args = shape[1], [unchain(a) for a in shape[2]]
+        out = args[0]
+        for o, a in zip(ops, args[1:]):
+            out = (o, out, a)
+        return out
+    if shape[0] in ("v", "c"):
+        return shape
+    return _flat(shape[0], [unchain(a) for a in shape[1:]])
+
+
+def has_chain(shape) -> bool:
+    if not isinstance(shape, tuple) or not shape or shape[0] in ("v", "c"):
+        return False
+    if shape[0] == "chain":
+        return True
+    return any(has_chain(a) for a in shape[1:])
+
+
+def dsl_shape(term):
+    """Shape of a parsed DSL term in the same vocabulary"""
+    import data_algebra.expr_rep as er
+
+    if isinstance(term, er.Value):
+        return ("v", type(term.value).__name__, term.value)
+    if isinstance(term, er.ColumnReference):
+        return ("c", term.column_name)
+    if isinstance(term, er.Expression):
+        args = [dsl_shape(a) for a in term.args]
+        if term.op == "-" and len(args) == 1:
+            return ("neg", args[0])
+        if not term.inline:
+            return ("call:" + term.op,) + tuple(args)
+        out = args[0]
+        if len(args) == 1:
+            return (term.op, out)
+        if term.op in FLATTEN:
+            for a in args[1:]:
+                out = _flat(term.op, [out, a])
+            return out
+        return (term.op,) + tuple(args)
+    return ("?", repr(term))
+
+
+def minimal_paren_text(full: str) -> str:
+    """remove every pair of parentheses whose removal leaves python_shape unchanged"""
+    want = python_shape(full)
+    text = full
+    changed = True
+    while changed:
+        changed = False
+        stack = []
+        pairs = []
+        for i, ch in enumerate(text):
+            if ch == "(":
+                stack.append(i)
+            elif ch == ")":
+                pairs.append((stack.pop(), i))
+        for a, b in pairs:
+            cand = text[:a] + text[a + 1 : b] + text[b + 1 :]
+            try:
+                if python_shape(cand) == want:
+                    text = cand
+                    changed = True
+                    break
+            except (SyntaxError, ValueError):
+                continue
+    return text
+
+
+class Skip(Exception):
+    pass
+
+
+def python_value(text: str, env: Dict[str, Any]):
+    """Evaluate the text with Python's semantics on Python's AST, raising Skip(reason) where Python and
+    the DSL do not define the operators identically.  The caller cross-checks with the builtin eval()."""
+    import ast
+    import operator
+
+    BIN = {
+        ast.Add: operator.add, ast.Sub: operator.sub, ast.Mult: operator.mul, ast.Div: operator.truediv,
+        ast.FloorDiv: operator.floordiv, ast.Mod: operator.mod, ast.Pow: operator.pow,
+    }  # fmt: skip
+    CMP = {ast.Lt: operator.lt, ast.LtE: operator.le, ast.Gt: operator.gt, ast.GtE: operator.ge, ast.Eq: operator.eq, ast.NotEq: operator.ne}
+
+    def chk(v):
+        if isinstance(v, complex):
+            raise Skip("complex-power")
+        if isinstance(v, bool):
+            return v
+        if isinstance(v, int) and abs(v) >= 2**62:
+            raise Skip("overflow")
+        if isinstance(v, float) and (v != v or v in (float("inf"), float("-inf")) or abs(v) > 1e300):
+            raise Skip("overflow")
+        return v
+
+    def rec(n):
+        if isinstance(n, ast.Constant):
+            return n.value
+        if isinstance(n, ast.Name):
+            return env[n.id]
+        if isinstance(n, ast.UnaryOp):
+            a = rec(n.operand)
+            if isinstance(n.op, ast.USub):
+                if isinstance(a, bool):
+                    raise Skip("bool-arithmetic")
+                return chk(-a)
+            if isinstance(n.op, ast.Not):
+                if not isinstance(a, bool):
+                    raise Skip("truthiness-of-number")
+                return not a
+            raise Skip("unary-op")
+        if isinstance(n, ast.BinOp):
+            l, r = rec(n.left), rec(n.right)
+            if isinstance(l, bool) or isinstance(r, bool):
+                raise Skip("bool-arithmetic")
+            if isinstance(n.op, ast.Pow):
+                if isinstance(l, int) and isinstance(r, int) and r < 0:
+                    raise Skip("int-pow-negative-int")
+                if l < 0 and isinstance(r, float) and r != int(r):
+                    raise Skip("complex-power")
+                if isinstance(r, (int, float)) and abs(r) > 64 and abs(l) > 1:
+                    raise Skip("overflow")
+            try:
+                return chk(BIN[type(n.op)](l, r))
+            except ZeroDivisionError:
+                raise Skip("division-by-zero")
+            except OverflowError:
+                raise Skip("overflow")
+        if isinstance(n, ast.BoolOp):
+            vals = []
+            for v in n.values:  # no short circuit: every operand must be defined in both worlds
+                a = rec(v)
+                if not isinstance(a, bool):
+                    raise Skip("truthiness-of-number")
+                vals.append(a)
+            return all(vals) if isinstance(n.op, ast.And) else any(vals)
+        if isinstance(n, ast.Compare):
+            operands = [rec(n.left)] + [rec(c) for c in n.comparators]
+            res = True
+            for o, a, b in zip(n.ops, operands, operands[1:]):
+                if isinstance(a, bool) != isinstance(b, bool):
+                    raise Skip("bool-number-comparison")
+                res = res and CMP[type(o)](a, b)
+            return res
+        raise Skip("node-" + type(n).__name__)
+
+    return rec(ast.parse(text, mode="eval").body)
+
+
+#: shapes (O.term_shape of the minimal sub-term whose printed text parses back differently) of the
+#: printing defects confirmed natively on the pinned tree -> (site, trigger); shared by C12 and C13
+def print_shape_trigger(shape: str) -> Optional[Tuple[str, str]]:
+    if shape.startswith("**:inline(expr[-:inline],"):
+        return ("expr_rep.Expression.to_python", "unary-minus-base-of-power")
+    if shape.startswith("**:inline(negconst,"):
+        return ("expr_rep.Expression.to_python", "negative-constant-base-of-power")
+    return None
+
+
+# --------------------------------------------------------------------------------------------------
+# C14: small SQL lexers (own implementation of the dialects' documented lexical rules)
+# --------------------------------------------------------------------------------------------------
+# string literals:  quote doubling ('' inside '...') in every dialect; backslash escapes additionally in
+#                   MySQL, Spark SQL and BigQuery; MySQL / Spark / BigQuery accept both ' and " as string quotes
+# identifiers:      "..." for SQLite / PostgreSQL (SQLite also accepts `...` and [...]); `...` for MySQL / Spark / BigQuery
+# comments:         -- to end of line (MySQL: only when followed by white space), /* ... */, # to end of line in MySQL / BigQuery
+
+SQL_DIALECTS: Dict[str, Dict[str, Any]] = {
+    "SQLiteModel": {"str_quotes": "'", "id_quotes": '"`', "backslash": False, "hash_comment": False, "dashdash_needs_space": False},
+    "PostgreSQLModel": {"str_quotes": "'", "id_quotes": '"', "backslash": False, "hash_comment": False, "dashdash_needs_space": False},
+    "MySQLModel": {"str_quotes": "'\"", "id_quotes": "`", "backslash": True, "hash_comment": True, "dashdash_needs_space": True},
+    "SparkSQLModel": {"str_quotes": "'\"", "id_quotes": "`", "backslash": True, "hash_comment": False, "dashdash_needs_space": False},
+    "BigQueryModel": {"str_quotes": "'\"", "id_quotes": "`", "backslash": True, "hash_comment": True, "dashdash_needs_space": False},
+}
+
+_SIMPLE_ESC = {"n": "\n", "t": "\t", "r": "\r", "b": "\b", "0": "\0", "\\": "\\", "'": "'", '"': '"', "`": "`"}
+
+
+def _decode_escape(dialect: str, c: str) -> Optional[str]:
+    """value of the escape sequence backslash + c (single character escapes only); None = invalid"""
+    if c in _SIMPLE_ESC:
+        if c == "0" and dialect == "BigQueryModel":
+            return None  # octal escapes need three digits
+        if c == "`" and dialect != "BigQueryModel":
+            return "`"
+        return _SIMPLE_ESC[c]
+    if dialect in ("MySQLModel", "SparkSQLModel"):
+        if c in "%_":
+            return "\\" + c  # the backslash is kept
+        if c == "Z":
+            return "\x1a"
+        return c  # any other escaped character stands for itself
+    if dialect == "BigQueryModel":
+        if c in "afv?":
+            return {"a": "\a", "f": "\f", "v": "\v", "?": "?"}[c]
+        return None  # BigQuery: unknown escape sequences are errors
+    return c
+
+
+def lex_sql(dialect: str, text: str) -> List[Tuple[str, Any]]:
+    """-> [(kind, decoded)]: kind is 'str' | 'qid' | 'w:<UPPERCASE WORD>' | 'num' | 'p:<char>' | 'err:<what>';
+    comments and white space are dropped."""
+    d = SQL_DIALECTS[dialect]
+    out: List[Tuple[str, Any]] = []
+    i, n = 0, len(text)
+    while i < n:
+        ch = text[i]
+        if ch.isspace():
+            i += 1
+            continue
+        if text.startswith("--", i) and (not d["dashdash_needs_space"] or i + 2 >= n or text[i + 2].isspace() or ord(text[i + 2]) < 32):
+            j = text.find("\n", i)
+            i = n if j < 0 else j + 1
+            continue
+        if ch == "#" and d["hash_comment"]:
+            j = text.find("\n", i)
+            i = n if j < 0 else j + 1
+            continue
+        if text.startswith("/*", i):
+            j = text.find("*/", i + 2)
+            if j < 0:
+                out.append(("err:unterminated-comment", text[i:]))
+                return out
+            i = j + 2
+            continue
+        if ch in d["str_quotes"] or ch in d["id_quotes"] or (ch == "[" and dialect == "SQLiteModel"):
+            is_str = ch in d["str_quotes"]
+            close = "]" if ch == "[" else ch
+            j = i + 1
+            buf = []
+            ok = False
+            while j < n:
+                c = text[j]
+                if c == "\\" and d["backslash"] and (is_str or dialect == "BigQueryModel"):
+                    if j + 1 >= n:
+                        break
+                    v = _decode_escape(dialect, text[j + 1])
+                    if v is None:
+                        out.append(("err:bad-escape", text[j : j + 2]))
+                        v = text[j + 1]
+                    buf.append(v)
+                    j += 2
+                    continue
+                if c == close:
+                    if close != "]" and j + 1 < n and text[j + 1] == close:
+                        buf.append(close)  # doubled quote
+                        j += 2
+                        continue
+                    ok = True
+                    j += 1
+                    break
+                buf.append(c)
+                j += 1
+            if not ok:
+                out.append(("err:unterminated-" + ("string" if is_str else "identifier"), "".join(buf)))
+                return out
+            out.append(("str" if is_str else "qid", "".join(buf)))
+            i = j
+            continue
+        if ch.isalpha() or ch == "_" or ord(ch) >= 128:
+            j = i + 1
+            while j < n and (text[j].isalnum() or text[j] in "_$" or ord(text[j]) >= 128):
+                j += 1
+            out.append(("w:" + text[i:j].upper(), text[i:j]))
+            i = j
+            continue
+        if ch.isdigit() or (ch == "." and i + 1 < n and text[i + 1].isdigit()):
+            j = i + 1
+            while j < n and (text[j].isdigit() or text[j] == "."):
+                j += 1
+            if j < n and text[j] in "eE" and j + 1 < n and (text[j + 1].isdigit() or (text[j + 1] in "+-" and j + 2 < n and text[j + 2].isdigit())):
+                j += 2
+                while j < n and text[j].isdigit():
+                    j += 1
+            out.append(("num", text[i:j]))
+            i = j
+            continue
+        out.append(("p:" + ch, ch))
+        i += 1
+    return out
+
+
+def sql_string_literal(dialect: str, quote: str, s: str) -> str:
+    """a correct literal for s in the dialect (used only to test the 'backslash not escaped' explanation)"""
+    body = s.replace(quote, quote + quote)
+    if SQL_DIALECTS[dialect]["backslash"]:
+        body = s.replace("\\", "\\\\").replace(quote, quote + quote)
+    return quote + body + quote
